@@ -401,10 +401,7 @@ theorem purgeAll_spec {nst : Nat} {self : Flav} (t : Tag) (n : Name) (ss : List 
 
 theorem resolveDeclare_target_lt {nst : Nat} (hn : 0 < nst) {a : DeclareArgs} {p : Proc} {r : Resolved}
     (hstack : ∀ s, a.stack = some s → s < nst) (h : resolveDeclare nst a p = some r) : r.target < nst := by
-  unfold resolveDeclare at h
-  simp only [Option.map_eq_some_iff] at h
-  obtain ⟨dt, _, rfl⟩ := h
-  show targetOf nst a dt.1 < nst
+  rw [resolveDeclare_some h]
   unfold targetOf
   split
   · rename_i s hs; exact hstack s hs
@@ -584,7 +581,7 @@ theorem step_onePlace {w : World} (hn : 0 < w.nst) (hinv : CacheInv w) (hone : O
     obtain ⟨m, dirs, ex, es, hs, he⟩ := step_db true w u c crash
     have hno : ∀ e ∈ es, NoTagAdded e := by
       intro e he'
-      exact run_noAdd w.nst c h1 h2 ⟨w.db, m, dirs, [], ex⟩ (by intro e h; simp at h) e (hs.subset he')
+      exact run_noAdd w.nst c h1 h2 ⟨w.db, m, dirs, [], ex, w.tfiles⟩ (by intro e h; simp at h) e (hs.subset he')
     unfold step
     rw [he]
     have hsub := foldl_tags_subset es hno w.db
@@ -592,6 +589,11 @@ theorem step_onePlace {w : World} (hn : 0 < w.nst) (hinv : CacheInv w) (hone : O
   cases c with
   | rmCache u s f => exact ⟨hone, hin⟩
   | clearCache u => exact ⟨hone, hin⟩
+  | envRmDir d => exact ⟨hone, hin⟩
+  | adminBuild u self =>
+    unfold step
+    rw [(step_adminBuild_db true w u self).1]
+    exact ⟨hone, hin⟩
   | run u c crash =>
     cases c with
     | assignTag f t n v st => exact absurd hc (by simp [Plain])
@@ -601,19 +603,19 @@ theorem step_onePlace {w : World} (hn : 0 < w.nst) (hinv : CacheInv w) (hone : O
       unfold step
       rw [hdb]
       simp only [run]
-      have hp : PInv w.nst a.self (⟨w.db, m, w.dirs, [], w.extras⟩ : Proc) := ⟨hinv.dbinv, hv⟩
+      have hp : PInv w.nst a.self (⟨w.db, m, w.dirs, [], w.extras, w.tfiles⟩ : Proc) := ⟨hinv.dbinv, hv⟩
       exact declare_onePlace hn hp hstack hone hin
     | undeclare a => exact hother u _ crash (by intro a' h; cases h) (by intro f t n v st h; cases h)
     | unassignTag f t n v st na => exact hother u _ crash (by intro a' h; cases h) (by intro f t n v st h; cases h)
     | remove f n v rc na fo su => exact hother u _ crash (by intro a' h; cases h) (by intro f t n v st h; cases h)
     | query f => exact hother u _ crash (by intro a' h; cases h) (by intro f t n v st h; cases h)
 
-theorem history_onePlace (nst : Nat) (hn : 0 < nst) (dirs : List DirEnt) (h : List WCmd) (hp : ∀ c ∈ h, Plain nst c) :
-    OnePlace (runHistory (World.init nst dirs) h).db ∧ TagsInPath nst (runHistory (World.init nst dirs) h).db := by
+theorem history_onePlace (nst : Nat) (hn : 0 < nst) (dirs : List DirEnt) (tfs : List TFile) (h : List WCmd) (hp : ∀ c ∈ h, Plain nst c) :
+    OnePlace (runHistory (World.init nst dirs tfs) h).db ∧ TagsInPath nst (runHistory (World.init nst dirs tfs) h).db := by
   unfold runHistory
   suffices ∀ w : World, w.nst = nst → CacheInv w → OnePlace w.db → TagsInPath nst w.db →
       OnePlace (h.foldl step w).db ∧ TagsInPath nst (h.foldl step w).db from
-    this _ rfl (cacheInv_init nst dirs) (by intro r hr; simp [World.init, Spec.empty] at hr)
+    this _ rfl (cacheInv_init nst dirs tfs) (by intro r hr; simp [World.init, Spec.empty] at hr)
       (by intro r hr; simp [World.init, Spec.empty] at hr)
   induction h with
   | nil => intro w _ _ h1 h2; exact ⟨h1, h2⟩
